@@ -71,11 +71,13 @@ ALLOC_ENS = [
     ("C01,C06,C16:alloc_block_inside_its_file", "ret matches Ok(b) ==> b.offset + b.limit <= MAX_FILE_SIZE"),
     ("C01:alloc_next_block_starts_after_this_one", "ret matches Ok(b) ==> (final(self).next_block.file_path == b.file_path && final(self).next_block.offset == b.offset + b.limit)"),
     ("C04:alloc_releases_spin_lock_on_every_path", "!final(self).lock"),
+    ("C04,C01:failed_allocation_leaves_the_allocator_where_it_was", "ret is Err ==> final(self).next_block == old(self).next_block"),
 ]
 
 UNIT = dict(
     name="core_trackers",
-    props=["C12", "C13"],
+    props=["C12", "C13", "C04", "C01"],
+    implicit_props=["C12", "C13"],
     features=["allocator_api"],
     uses=["std::collections::HashMap", "vstd::std_specs::hash::*", "vstd::set_lib::*"],
     prelude=["core_types.rs", "str_ext.rs", "hashmap_ext.rs"],
